@@ -740,6 +740,18 @@ def general_case(ck: Check, drv, rng, viol):
         viol.append(spec)
 
 
+def second_order(errs) -> bool:
+    """energy errors at eps, eps/2, eps/4 over a fixed integration time are consistent with second order.
+    The end-point error is C*eps^2 + O(eps^4) where C (and the sum) can vanish by accident at one step size, so a
+    single ratio can be anything; a first-order scheme has BOTH ratios near 2. Sound rule: one of the two ratios
+    is at least 2.8, or the finest error is at round-off level."""
+    if errs[2] <= 1e-12:
+        return True
+    r1 = errs[0] / errs[1] if errs[1] > 0 else float("inf")
+    r2 = errs[1] / errs[2] if errs[2] > 0 else float("inf")
+    return max(r1, r2) >= 2.8
+
+
 def search_general(ck: Check, rng, count, found):
     """property oracles on the implementation with real targets: reversal, Jacobian, step halving"""
     for _ in range(count):
@@ -780,7 +792,7 @@ def search_general(ck: Check, rng, count, found):
                 errs = None
                 break
             errs.append(abs(r[4] - r[3]))
-        if errs and errs[0] > 1e-9 and not errs[2] <= errs[0] / 8.0:
+        if errs and max(errs) > 1e-9 and not second_order(errs):
             found.append(("leapfrog:energy-order", {"oracle": "step-halving", "errors": errs, "T": T},
                           {"general": spec}))
 
@@ -1299,7 +1311,7 @@ def replay(path: str) -> int:
                 r = general_run(spec, steps=L * 2 ** h, eps=T / (L * 2 ** h))
                 errs.append(abs(r[4] - r[3]))
             print("energy errors at eps, eps/2, eps/4:", errs)
-            bad = {"errors": errs} if not errs[2] <= errs[0] / 8.0 else None
+            bad = {"errors": errs} if not second_order(errs) else None
         else:
             bad = oracle_reversal(run_, q0, p0, 1e-8)
     elif "history" in inp:
